@@ -12,21 +12,22 @@ export RUST_BACKTRACE=0 CARGO_NET_OFFLINE=true
 cargo build --offline -q 2>/dev/null
 for S in "$@"; do
   [ -f "$S/patch.diff" ] || { echo "$S: no patch.diff"; continue; }
-  git checkout -q -- . ; git clean -fdq -e target
+  git reset -q --hard HEAD; git clean -fdq -e target
   APPLY=ok
   git apply "$S/patch.diff" 2>/dev/null || git apply --3way "$S/patch.diff" 2>/dev/null || APPLY=failed
-  if [ $APPLY = failed ]; then echo "{\"applies\": false}" > "$S/confirm.json"; echo "$S: patch does not apply"; git checkout -q -- .; continue; fi
+  if [ $APPLY = failed ]; then echo "{\"applies\": false}" > "$S/confirm.json"; echo "$S: patch does not apply"; git reset -q --hard HEAD; continue; fi
+  ARG=$WT/target/debug/fml; grep -qi "path-to-worktree" "$S/demo/run.sh" 2>/dev/null && ARG=$WT
   git diff > "$S/patch.rebased.diff"
   TESTS=$(cargo test --workspace --no-fail-fast --offline 2>&1 | grep -E "^test result" | head -1)
   cargo build --offline -q 2>/dev/null
   WITH=""; WITHOUT=""
   if [ -x "$S/demo/run.sh" ] || [ -f "$S/demo/run.sh" ]; then
-    WITH=$(cd "$S/demo" && timeout 120 bash ./run.sh $WT/target/debug/fml 2>&1 | sed -e "s/([0-9]*) panicked/panicked/" | head -c 20000)
+    WITH=$(cd "$S/demo" && timeout 120 bash ./run.sh $ARG 2>&1 | sed -e "s/([0-9]*) panicked/panicked/" | head -c 20000)
   fi
-  git checkout -q -- . ; git clean -fdq -e target
+  git reset -q --hard HEAD; git clean -fdq -e target
   cargo build --offline -q 2>/dev/null
   if [ -f "$S/demo/run.sh" ]; then
-    WITHOUT=$(cd "$S/demo" && timeout 120 bash ./run.sh $WT/target/debug/fml 2>&1 | sed -e "s/([0-9]*) panicked/panicked/" | head -c 20000)
+    WITHOUT=$(cd "$S/demo" && timeout 120 bash ./run.sh $ARG 2>&1 | sed -e "s/([0-9]*) panicked/panicked/" | head -c 20000)
   fi
   python3 - "$S" "$TESTS" <<PY
 import json,sys
